@@ -96,6 +96,23 @@ def default_table():
     }
 
 
+def named_everything():
+    """One aggregator of every kind that has a quantity, each with a named quantity of its own."""
+    hg = lib()
+    from histogrammar.util import named  # noqa: PLC0415
+
+    def q(n):
+        return named("nm_" + n, eval("lambda d: d", {}))  # noqa: S307
+
+    return [
+        hg.Sum(q("sum")), hg.Average(q("average")), hg.Deviate(q("deviate")), hg.Minimize(q("minimize")), hg.Maximize(q("maximize")),
+        hg.Bag(q("bag"), "N"), hg.Bin(2, 0.0, 1.0, q("bin")), hg.SparselyBin(1.0, q("sparselybin")), hg.CentrallyBin([0.0, 1.0], q("centrallybin")),
+        hg.IrregularlyBin([0.0, 1.0], q("irregularlybin")), hg.Stack([0.0, 1.0], q("stack")), hg.Fraction(q("fraction")), hg.Select(q("select"), hg.Count()),
+        hg.Categorize(q("categorize")),
+        hg.Label(a=hg.Bin(2, 0.0, 1.0, q("bin2"), hg.Sum(q("sum2")))), hg.Branch(hg.Select(q("select2"), hg.Stack([0.0], q("stack2"), hg.Average(q("average2"))))),
+    ]
+
+
 def check_defaults(case):
     make, kind = default_table()[case["ctor"]]
     h = make()
@@ -115,6 +132,14 @@ def check_defaults(case):
     d = norm.diff(d0, doc(clone), norm.BITEXACT)
     require(not d, "clone-content-differs", lambda: f"{case['ctor']}: clone document differs: {norm.fmt(d)}")
     require((clone == h) is True and (h == clone) is True, "clone-not-equal", f"{case['ctor']}: clone == h is not True in both orders")
+    # in between, the process reads other, unrelated aggregators from JSON - one of every kind, with named quantities:
+    # the clone holds private copies of the library's default objects, the original the shared ones, and nothing that
+    # happens to other aggregators may tell the two apart
+    for other in named_everything():
+        other.toImmutable()
+    d = norm.diff(doc(h), doc(clone), norm.BITEXACT)
+    require(not d, "clone-content-differs", lambda: f"{case['ctor']}: after unrelated aggregators were read from JSON the clone differs from the original: {norm.fmt(d)}", {"after": "unrelated-reloads"})
+    require((clone == h) is True and (h == clone) is True, "clone-not-equal", f"{case['ctor']}: clone == h is not True after unrelated aggregators were read from JSON", {"after": "unrelated-reloads"})
     done = 0
     for n, (how, vals, ws) in enumerate(case["steps"]):
         outcomes = []
